@@ -252,6 +252,21 @@ let dispatch cmd a =
           let spec = snd (prun (spec_pstep s0.d_recs) Z0 ops) in
           "ok " ^ tok_of_outs outs ^ " " ^ tok_of_outs spec ^ " "
           ^ tok_of_bool (ops_ok (z_of_int (List.length s0.d_recs)) Z0 ops)))
+  | "selinfo" -> (* all(), the OR of every member, number of members, to_lazrs(all()), all layers reached? *)
+    String.concat " " [string_of_z selection_all; string_of_z (or_all (List.map snd selection_members));
+      string_of_int (List.length selection_members); string_of_z (sel_to_lazrs selection_all);
+      tok_of_bool (List.for_all (fun l -> has (sel_to_lazrs selection_all) l) lz_layers);
+      tok_of_zlist (List.map snd selection_defaults)]
+  | "tolazrs" -> String.concat "," (List.map (fun t -> string_of_z (sel_to_lazrs (z_of_string t))) (Array.to_list a))
+  | "mask" -> (* laspy-selection fmt ps recs : the records as a backend honouring to_lazrs(selection) hands them out *)
+    let ps = int_of_string a.(2) in
+    tok_of_recs (List.map (mask_record (sel_to_lazrs (zi 0)) (zi 1)) (recs_of_tok ps a.(3)))
+  | "lazread_sel" | "lazread_ns_sel" -> (* selection(N = none passed) backends bytes *)
+    let sel = if a.(0) = "N" then None else Some (zi 0) in
+    let b = bytes_of_tok a.(2) in set_pos_of_file b;
+    let r = if cmd = "lazread_sel" then read_laz d_open d_read (backends_of a.(1)) b
+            else read_laz_ns d_open d_read d_rest (backends_of a.(1)) b in
+    res out_lz (match r with Ok lz -> Ok (lz_select sel lz) | Err e -> Err e)
   | _ -> "unknown-command " ^ cmd
 
 let () =
